@@ -394,3 +394,50 @@ M("C16", "uri-octet-filter-drops-lower-case", F, SANITISE, '    uri = bytes(o fo
 M("C16", "uri-octet-filter-drops-semicolon", F, SANITISE, '    uri = bytes(o for o in uri if o != 0x3B)\n', "C16.R3")
 M("C16", "uri-octet-filter-keeps-high-half-only", F, SANITISE, '    uri = bytes(o for o in uri if o & 0x80)\n', "C16.R3")
 M("C16", "uri-octet-filter-inverted", F, SANITISE, '    uri = bytes(o for o in uri if not o < 0x80)\n', "C16.R3")
+
+# ============================================================================================ wave 8
+# ---- fields passed through a mapping splatted with `**` (definition of `**`: `K(.., **{"a": x})` passes `a=x`); the display
+# spelled as dict(a=x, ..), the remaining request fields positional (another spelling than benign/C16o)
+RESP_RET = '        return HttpResponse(body=body, headers=headers, status=status_code, reason=reason)\n'
+SHARED = '    shared = dict(body=body, headers=headers)\n'
+T("C16", "twin-shared-fields-splatted-dict-call", F, "", "", edits=[
+    (F, '    # HTTP/1.1 200 OK\n', SHARED + '    # HTTP/1.1 200 OK\n'),
+    (F, RESP_RET, '        return HttpResponse(status_code, reason=reason, **shared)\n'),
+    (F, REQ_RET, '    return HttpRequest(method, uri, params, **shared)\n'),
+])
+# every field of the request in one display built just before the construction
+T("C16", "twin-request-fields-all-splatted", F, REQ_RET,
+  '    fields = {"method": method, "uri": uri, "params": params, "headers": headers, "body": body}\n    return HttpRequest(**fields)\n')
+# mutants on top of the splatted shape: the display carries a wrong body / the maps of the wrong role
+M("C16", "splatted-body-is-the-head", F, "", "", "C16.R1", edits=[
+    (F, '    # HTTP/1.1 200 OK\n', '    shared = {"body": header_data, "headers": headers}\n    # HTTP/1.1 200 OK\n'),
+    (F, RESP_RET, '        return HttpResponse(status=status_code, reason=reason, **shared)\n'),
+    (F, REQ_RET, '    return HttpRequest(method=method, uri=uri, params=params, **shared)\n'),
+])
+M("C16", "splatted-headers-are-the-params", F, REQ_RET,
+  '    fields = {"method": method, "uri": uri, "params": params, "headers": params, "body": body}\n    return HttpRequest(**fields)\n', "C16.R3")
+# ---- parse_qs instead of parse_qsl (lemma of `_qs_grouped`: parse_qs groups the parse_qsl pairs by name, first-occurrence
+# order, values in pair order): filling loop over .items() taking the last value / comprehension over the names with lookup
+IMPORT_QS = (F, IMPORT, "from urllib.parse import parse_qs, urlsplit")
+T("C16", "twin-params-parse-qs-items-loop-last-value", F, "", "", edits=[IMPORT_QS, (F, QUERY,
+  '    params = {}\n    for name, values in parse_qs(result.query.decode("ascii"), encoding="latin-1").items():\n'
+  '        params[name.encode("latin-1")] = values[-1].encode("latin-1")\n')])
+# (the form `{n: grouped[n][-1] for n in grouped}` is covered by the lemma too, but the engine's escape analysis - R6 - does not
+# know that the lookup of a key being iterated cannot fail, so it is no twin here)
+T("C16", "twin-params-parse-qs-dict-of-pair-generator", F, "", "", edits=[IMPORT_QS, (F, QUERY,
+  '    grouped = parse_qs(result.query.decode("ascii"), encoding="latin-1")\n'
+  '    params = dict((name.encode("latin-1"), values[0].encode("latin-1")) for name, values in grouped.items())\n')])
+# the value lists consumed in a way the lemma does not cover: undecided, not violated
+T("C16", "twin-params-parse-qs-lists-popped", F, "", "", edits=[IMPORT_QS, (F, QUERY,
+  '    query = parse_qs(result.query.decode("ascii"), encoding="latin-1")\n'
+  '    params = {key.encode("latin-1"): values.pop().encode("latin-1") for key, values in query.items()}\n')])
+# mutants on top of the parse_qs shape
+QS_ITEMS = '    query = parse_qs(QQ.decode("ascii"), encoding="latin-1")\n    params = {KK: VV for key, values in query.items()}\n'
+M("C16", "parse-qs-of-the-path", F, "", "", "C16.R3", edits=[IMPORT_QS, (F, QUERY,
+  QS_ITEMS.replace("QQ", "result.path").replace("KK", 'key.encode("latin-1")').replace("VV", 'values[-1].encode("latin-1")'))])
+M("C16", "parse-qs-name-and-value-swapped", F, "", "", "C16.R3", edits=[IMPORT_QS, (F, QUERY,
+  QS_ITEMS.replace("QQ", "result.query").replace("KK", 'values[-1].encode("latin-1")').replace("VV", 'key.encode("latin-1")'))])
+M("C16", "parse-qs-value-truncated", F, "", "", "C16.R3", edits=[IMPORT_QS, (F, QUERY,
+  QS_ITEMS.replace("QQ", "result.query").replace("KK", 'key.encode("latin-1")').replace("VV", 'values[-1][:-1].encode("latin-1")'))])
+M("C16", "parse-qs-without-single-byte-codec", F, "", "", "C16.R7", edits=[IMPORT_QS, (F, QUERY,
+  '    query = parse_qs(result.query.decode("ascii"))\n    params = {key.encode("latin-1"): values[-1].encode("latin-1") for key, values in query.items()}\n')])
